@@ -24,7 +24,7 @@ ID = "C20"
 TITLE = "text-oriented writers"
 LEVEL = "exploration"
 RULE = (
-    "cases = seeded recipes of nine kinds: csv / line / text = a sequence of 1-10 records alternating between 1-3 types "
+    "cases = seeded recipes of twelve kinds: csv / line / text = a sequence of 1-10 records alternating between 1-3 types "
     "(all serialisable field types, pool values; text-like cells biased to delimiters, quotes, CR, LF, CRLF, tab, NUL, "
     "unicode, surrogate-escaped bytes, leading/trailing blanks; timestamps at the year limits with offsets; grouped "
     "records) written by the real writer under options fields / exclude (lists, comma strings, URI query; unknown, "
@@ -42,7 +42,12 @@ RULE = (
     "default-terminator path).  defang = the documented defang format spec against a regex-free reference model (scheme rewrite at the start "
     "in any letter case with or without dots, last host dot, dotted quads) over dot-less / IPv6-literal / single-label / scheme-only / mixed-case "
     "/ multi-URL values through format(), str.format, f-strings on string, uri, net.ipaddress values and through text-writer templates; "
-    "rdumpfmt = rdump -f/--format TEMPLATE in a child process == template applied to each record.  Non-trivial = at least one record rendered / read; distinct = distinct (kind, option set, type shapes, sub-seed).  "
+    "rdumpfmt = rdump -f/--format TEMPLATE in a child process == template applied to each record.  rdumpmode = the enumerated product "
+    "{default text, -f, line, line-verbose, csv, json, jsonlines (all spellings)} x {neither, -F, -X, -F -X} partitioned over the shards: child "
+    "stdout == text model of the PROJECTED records (line blocks, csv header/rows, repr of an independently built projected record, JSON key sets). "
+    "envstdout = text / -f / -L / -Lv stdout bytes under PYTHONIOENCODING ascii / latin-1 / utf-16 / cp1252, C locale without UTF-8 mode, UTF-8 "
+    "mode == UTF-8(+surrogateescape) bytes of the model text.  csvpipe = comma CSV with safe cells (1-120 rows, also > 1024 characters) piped "
+    "into `rdump csvfile://- -w` == one record per row with the cells' text.  Non-trivial = at least one record rendered / read; distinct = distinct (kind, option set, type shapes, sub-seed).  "
     "Oracle: written bytes decoded with surrogateescape; CSV parsed by csv.reader (excel dialect) == header row per run "
     "of one type + one row of str(value) cells (None -> empty) per record; line output matched block by block "
     "('--[ RECORD n ]--', one right-aligned 'name = value' line per selected field, verbose adds ' (type)'); text "
@@ -53,6 +58,8 @@ RULE = (
 ASSUMPTIONS = [
     "in the tzdisplay worker the text form of a timestamp is checked against an independent stdlib reference (its own stored wall clock and offset under FLOW_RECORD_TZ=NONE, the instant in the display zone otherwise); everywhere else the text form of a value is Python's str(value) (repr / format(value, spec) in text output): value-level rendering is shared with the implementation, layout is modelled independently; display-timezone independence is C13's",
     "the reference of the defang spec encodes the rules documented at the pinned revision (six schemes, anchored at the start of the value, case-insensitive; dot before the last word run that ends at end-of-value, '/' or ':'; third dot of a dotted quad); a final line feed counts as end of value",
+    "the csv MODE of rdump writes through the process's text stdout: its bytes are by construction the environment's encoding of the text, so the stdout-encoding children cover the byte-writing text and line writers only (JSON rendering is C14's)",
+    "CSV from a non-seekable stdin can only be read with the default dialect (no look-ahead without consuming): the pipe cases use comma-separated content",
     "rdump child-process cases take their reference from the records as the real reader returns them from the source file (stream round-trip effects are C01's)",
     "the process encoding is UTF-8 (the CSV writer opens its file with the locale encoding)",
     "the column / line order of a grouped record's flat view is not pinned (compared as a mapping); for plain records the order is the descriptor's or the fields option's",
@@ -80,6 +87,14 @@ ANCHORS = [
 KEY_BARE_NL = "csv-bare-newline-custom-terminator"
 
 KINDS = [("csv", 33), ("line", 21), ("text", 23), ("csvread", 11), ("gmutwrite", 7), ("defang", 5)]
+# every output mode of the tool (alternative spellings of one mode form a family)
+RDUMP_MODE_FAMILIES = [
+    ("text", [[]]), ("line", [["-L"], ["--line"], ["--mode=line"], ["-m", "line"]]), ("line-verbose", [["-Lv"], ["--line-verbose"], ["--mode=line-verbose"]]),
+    ("csv", [["-C"], ["--csv"], ["--mode=csv"]]), ("json", [["-j"], ["--json"], ["-m", "json"]]), ("jsonlines", [["-J"], ["--jsonlines"], ["--mode=jsonlines"]]),
+    ("text-format", [["-f"], ["--format"]]),
+]
+STDOUT_ENVS = [{"PYTHONIOENCODING": "ascii"}, {"PYTHONIOENCODING": "latin-1"}, {"PYTHONIOENCODING": "utf-16"}, {"PYTHONIOENCODING": "cp1252"},
+               {"LC_ALL": "C", "PYTHONUTF8": "0"}, {"PYTHONUTF8": "1"}, {"LC_ALL": "C", "PYTHONUTF8": "0", "PYTHONIOENCODING": "ascii:strict"}]
 RDUMP_CSV_MODES = [["--csv"], ["-C"], ["--mode=csv"], ["-m", "csv"]]
 TZ_ZONES = ["Europe/Amsterdam", "America/New_York", "Asia/Kathmandu", "Australia/Lord_Howe", "UTC"]
 WORKER_TIMEOUT_S = 120
@@ -134,7 +149,14 @@ def generate(ctx):
     weights = [w for _, w in KINDS]
     tz_plan = ["NONE", rng.choice(TZ_ZONES), "NONE"] if ctx.quick else ["NONE", "NONE", None, "NONE"] + rng.sample(TZ_ZONES, 3) + ["NONE"]
     every = max(1, total // len(tz_plan))
-    tool_plan = [("rdumpcsv", m) for m in rng.sample(RDUMP_CSV_MODES, len(RDUMP_CSV_MODES))][:ctx.scale(3, 4)] * ctx.scale(1, 3) + [("rdumpfmt", None)] * ctx.scale(2, 6)
+    tool_plan = [("rdumpcsv", m) for m in rng.sample(RDUMP_CSV_MODES, len(RDUMP_CSV_MODES))][:ctx.scale(2, 4)] * ctx.scale(1, 3) + [("rdumpfmt", None)] * ctx.scale(1, 6)
+    tool_every = max(1, total // len(tool_plan))
+    combos = [(fam, opt) for fam in range(len(RDUMP_MODE_FAMILIES)) for opt in ("none", "F", "X", "FX")]
+    mine = [c for j, c in enumerate(combos) if ctx.mine(j + ctx.seed)] * ctx.scale(1, 2)
+    for fam, opt in mine:
+        tool_plan.append(("rdumpmode", [fam, opt]))
+    tool_plan += [("envstdout", (ctx.shard + ctx.seed + j) % 4) for j in range(ctx.scale(1, 4))] + [("csvpipe", None)] * ctx.scale(1, 4)
+    rng.shuffle(tool_plan)
     tool_every = max(1, total // len(tool_plan))
     for i in range(total):
         if i % every == 0 and tz_plan:
@@ -1114,9 +1136,12 @@ def do_tzdisplay(ctx, case, mk):
 
 
 # ---- the rdump tool's stdout modes (child process) -----------------------------------------------------------
-def run_rdump(ctx, args):
+def run_rdump(ctx, args, extra_env=None, stdin=None, want_failure_info=False):
     """`python -m flow.record.tools.rdump <args>` in a child process importing the tree under test.  -> stdout bytes or None."""
     env = dict(os.environ)
+    for k in ("PYTHONIOENCODING", "PYTHONUTF8", "LC_ALL", "LC_CTYPE", "LANG"):
+        env.pop(k, None)
+    env.update(extra_env or {})
     repo = os.environ.get("VERIF_REPO")
     if repo and os.path.realpath(repo) != "/repo":
         env["PYTHONPATH"] = repo + os.pathsep + env.get("PYTHONPATH", "")
@@ -1124,14 +1149,16 @@ def run_rdump(ctx, args):
     if os.environ.get("FLOW_RECORD_TZ"):
         env["FLOW_RECORD_TZ"] = os.environ["FLOW_RECORD_TZ"]
     try:
-        p = subprocess.run([sys.executable, "-W", "ignore", "-m", "flow.record.tools.rdump"] + list(args), env=env, capture_output=True, timeout=WORKER_TIMEOUT_S)
+        p = subprocess.run([sys.executable, "-W", "ignore", "-m", "flow.record.tools.rdump"] + list(args), env=env, capture_output=True, timeout=WORKER_TIMEOUT_S,
+                           input=stdin)
     except subprocess.TimeoutExpired:
         ctx.require(False, "an rdump child process exceeded its %d s watchdog" % WORKER_TIMEOUT_S)
         return None
     ctx.event("rdump_children_run")
     if p.returncode != 0:
         ctx.violation(None, "rdump failed for valid records (exit %s)" % p.returncode,
-                      detail={"args": [a if not a.startswith(ctx.state["tmp"]) else "<src>" for a in args], "stderr": p.stderr.decode("utf-8", "replace")[-1500:]})
+                      detail={"args": [a if not a.startswith(ctx.state["tmp"]) else "<src>" for a in args], "environment": extra_env,
+                              "stderr": p.stderr.decode("utf-8", "replace")[-1500:]})
         return None
     return p.stdout
 
@@ -1331,8 +1358,9 @@ def do_rdumpfmt(ctx, case, mk):
         try:
             expected = "".join(tm.apply_template(tm.translate_escapes(template), tm.slots_and_values(r)[1]) + "\n" for r in back)
         except (tm.Undefined, ValueError):
-            ctx.event("rdumpfmt_template_undefined_skipped")
-            return
+            ctx.event("rdumpfmt_template_undefined_replaced")
+            template = "{_version}|{_source}|{nope}"
+            expected = "".join(tm.apply_template(template, tm.slots_and_values(r)[1]) + "\n" for r in back)
         flag = rng.choice(["-f", "--format"])
         out = run_rdump(ctx, [src, flag, template])
     finally:
@@ -1354,8 +1382,277 @@ def do_rdumpfmt(ctx, case, mk):
     ctx.sample({"kind": "rdumpfmt", "template": template, "stdout": text[:300]}, kind="rdumpfmt")
 
 
+# ---- every rdump output mode x {-F, -X, both, neither} --------------------------------------------------------
+def projected(r, fields, exclude):
+    """What rdump hands to its writer for -F / -X: (type name, [(type, name)] data fields, {slot: value})."""
+    names, values, types, _ = tm.slots_and_values(r)
+    data = [n for n in names if n not in tm.META]
+    if fields:
+        keep = []
+        for f in fields:
+            if f in data and f not in exclude and f not in keep:
+                keep.append(f)
+    elif exclude:
+        keep = [n for n in data if n not in exclude]
+    else:
+        keep = data
+    return str(r._desc.name), [(types[n], n) for n in keep], values
+
+
+def do_rdumpmode(ctx, case, mk):
+    import json as _json
+
+    from flow.record import RecordDescriptor
+
+    rng = mk.rng
+    fam, opt = case["mode"]
+    family, spellings = RDUMP_MODE_FAMILIES[fam]
+    flag = list(rng.choice(spellings))
+    records = [r for r in mk.sequence() + mk.sequence() if not hasattr(r, "descriptors")][:8]
+    if family in ("json", "jsonlines"):
+        # what JSON can carry is C14's subject: keep to plainly packable types here
+        descs = [mk.descriptor(types=["string", "varint", "boolean", "datetime", "string[]", "uint16"]) for _ in range(2)]
+        records = [mk.record(rng.choice(descs)) for _ in range(rng.randint(2, 6))]
+    if not records:
+        return
+    ctx.ev()
+    try:
+        src, back = write_source(ctx, records)
+    except Exception:  # noqa: BLE001
+        ctx.event("rdumpmode_source_not_writable_skipped")
+        return
+    try:
+        back = split_renderable(ctx, back, repr, "text")
+        if not back:
+            return
+        have = []
+        for r in back:
+            for n in tm.slots_and_values(r)[0]:
+                if n not in have and not n.startswith("_"):
+                    have.append(n)
+        fields = (rng.sample(have, rng.randint(1, len(have))) + (["nope"] if rng.random() < 0.3 else [])) if "F" in opt and have else []
+        exclude = []
+        if "X" in opt:
+            exclude = rng.sample(have, rng.randint(0, min(2, len(have)))) + rng.sample(list(tm.META), rng.choice([0, 1, 2, 4]))
+            if not exclude:
+                exclude = ["_source"]
+        args = [src] + flag
+        template = None
+        if family == "text-format":
+            names, values, types, _ = tm.slots_and_values(back[0])
+            template = "|".join("{%s}" % n for n in rng.sample(names, min(len(names), 3))) + "|{nope}"
+            args.append(template)
+        if fields:
+            args += [rng.choice(["-F", "--fields"]), ",".join(fields)]
+        if exclude:
+            args += [rng.choice(["-X", "--exclude"]), ",".join(exclude)]
+        out = run_rdump(ctx, args)
+    finally:
+        try:
+            os.unlink(src)
+        except OSError:
+            pass
+    ctx.cell("rdumpmode", family, opt)
+    if out is None:
+        return
+    text = out.decode("utf-8", "surrogateescape")
+    detail = {"args": ["<src>"] + args[1:], "records": describe(back), "stdout": text[:700]}
+    proj = [projected(r, fields, exclude) for r in back]
+    what = "rdump %s %s: output differs from the text model of the projected records" % (family, {"none": "", "F": "-F", "X": "-X", "FX": "-F -X"}[opt])
+    ok = True
+    if family in ("line", "line-verbose"):
+        pos = 0
+        for i, (name, data, values) in enumerate(proj):
+            slots = [n for _, n in data] + list(tm.META)
+            types = dict((n, t) for t, n in data)
+            types.update(zip(tm.META, ("string", "string", "datetime", "varint")))
+            sel = tm.select(slots, fields, exclude)
+            items = [("%s (%s)" % (n, types[n]) if family == "line-verbose" else n, str(values[n])) for n in sel]
+            pos, why = tm.match_line_block(text, pos, i + 1, items, True)
+            if why:
+                ctx.violation(None, what, detail=dict(detail, block=i + 1, why=why, selected=sel))
+                ok = False
+                break
+        if ok and pos != len(text):
+            ctx.violation(None, what, detail=dict(detail, why="extra text after the last block", extra=text[pos:pos + 200]))
+            ok = False
+    elif family == "csv":
+        exp, last = [], None
+        for name, data, values in proj:
+            slots = [n for _, n in data] + list(tm.META)
+            sel = tm.select(slots, fields, exclude)
+            key = (name, tuple(data))
+            if key != last:
+                exp.append((list(sel), "header", True, list(sel)))
+                last = key
+            exp.append(([tm.cell_text(values[n]) for n in sel], "row", True, list(sel)))
+        try:
+            why = compare_rows(tm.std_parse(text), exp)
+        except csv.Error as e:
+            why = repr(e)
+        if why:
+            ctx.violation(None, what, detail=dict(detail, why=why))
+            ok = False
+    elif family in ("json", "jsonlines"):
+        docs, dec, i = [], _json.JSONDecoder(), 0
+        try:
+            while i < len(text):
+                while i < len(text) and text[i] in " \r\n\t":
+                    i += 1
+                if i >= len(text):
+                    break
+                d, i = dec.raw_decode(text, i)
+                docs.append(d)
+        except ValueError as e:
+            ctx.violation(None, what, detail=dict(detail, why="stdout is not a sequence of JSON documents: %r" % e))
+            return
+        docs = [d for d in docs if not (isinstance(d, dict) and d.get("_type") == "recorddescriptor")]
+        if len(docs) != len(proj):
+            ctx.violation(None, what, detail=dict(detail, why="%d JSON documents for %d records" % (len(docs), len(proj))))
+            ok = False
+        else:
+            for d, (name, data, values) in zip(docs, proj):
+                want = sorted([n for _, n in data] + list(tm.META))
+                got = sorted(k for k in d if k not in ("_type", "_recorddescriptor"))
+                if got != want:
+                    ctx.violation(None, what, detail=dict(detail, why="keys of a JSON document are not the projected record's fields", keys=got, expected=want))
+                    ok = False
+                    break
+    else:
+        expected = []
+        for r, (name, data, values) in zip(back, proj):
+            if template is not None:
+                vis = dict((n, values[n]) for n in [x for _, x in data] + list(tm.META))
+                try:
+                    expected.append(tm.apply_template(template, vis))
+                except tm.Undefined:  # cannot happen for plain {key} fields; keep the run conclusive anyway
+                    expected.append("<undefined>")
+            elif not fields and not exclude:
+                expected.append(repr(r))
+            else:
+                kw = dict((n, values[n]) for _, n in data)
+                kw.update((m, values[m]) for m in ("_source", "_classification", "_generated"))
+                expected.append(repr(RecordDescriptor(name, data).recordType(**kw)))
+        exp_text = "".join(e + "\n" for e in expected)
+        if text != exp_text:
+            pos = next((i for i in range(min(len(text), len(exp_text))) if text[i] != exp_text[i]), min(len(text), len(exp_text)))
+            ctx.violation(None, what, detail=dict(detail, at=pos, written=text[max(0, pos - 60):pos + 160], expected=exp_text[max(0, pos - 60):pos + 160]))
+            ok = False
+    if ok:
+        ctx.event("rdumpmode_outputs_checked")
+        ctx.event("rdumpmode_records_checked", len(proj))
+    ctx.nontrivial("rdumpmode", family, opt, fields, exclude, case["s"])
+    ctx.sample({"kind": "rdumpmode", "args": detail["args"], "stdout": text[:300]}, kind="rdumpmode:%s:%s" % (family, opt))
+
+
+# ---- the stdout routes under other process encodings -----------------------------------------------------
+def do_envstdout(ctx, case, mk):
+    """The text and line writers (rdump default mode, -f, -L, -Lv) emit BYTES: whatever the encoding of the process's stdout
+    (PYTHONIOENCODING, C locale without UTF-8 mode, UTF-8 mode), the bytes are the UTF-8 (+ surrogateescape) form of the model text."""
+    from flow.record import RecordDescriptor
+
+    rng = mk.rng
+    mk.ntypes += 1
+    desc = RecordDescriptor("t%d/intl" % mk.ntypes, [("string", "name"), ("wstring", "note"), ("varint", "n"), ("string[]", "tags")])
+    pool = ["naïve → 日本", "sur\udcff", "€uro", "Ω≈ç", "😀", "plain", "é", "\udc80\udcfe", "ünï\tcode", "Ĉ"]
+    records = [desc.recordType(name=rng.choice(pool), note=rng.choice(pool), n=i, tags=rng.sample(pool, rng.randint(0, 3)), _source=rng.choice([None, "srç"]))
+               for i in range(rng.randint(2, 5))]
+    ctx.ev()
+    try:
+        src, back = write_source(ctx, records)
+    except Exception:  # noqa: BLE001
+        ctx.event("envstdout_source_not_writable_skipped")
+        return
+    try:
+        mode = ["text", "format", "line", "line-verbose"][case["mode"] % 4] if isinstance(case.get("mode"), int) else rng.choice(["text", "format", "line", "line-verbose"])
+        args = [src]
+        if mode == "text":
+            expected = "".join(repr(r) + "\n" for r in back)
+        elif mode == "format":
+            template = "{n}: {name} - {note}|{tags}"  # ASCII only: argv itself is decoded with the child's locale
+            args += ["-f", template]
+            expected = "".join(tm.apply_template(template, tm.slots_and_values(r)[1]) + "\n" for r in back)
+        else:
+            args += ["-L" if mode == "line" else "-Lv"]
+            parts = []
+            for i, r in enumerate(back):
+                names, values, types, _ = tm.slots_and_values(r)
+                keys = ["%s (%s)" % (n, types[n]) if mode == "line-verbose" else n for n in names]
+                width = max(len(k) for k in keys)
+                parts.append("--[ RECORD %d ]--\n" % (i + 1) + "".join("%s = %s\n" % (k.rjust(width), str(values[n])) for k, n in zip(keys, names)))
+            expected = "".join(parts)
+        want = expected.encode("utf-8", "surrogateescape")
+        for extra in rng.sample(STDOUT_ENVS, 2):
+            out = run_rdump(ctx, args, extra_env=extra)
+            label = ",".join("%s=%s" % kv for kv in sorted(extra.items()))
+            ctx.cell("envstdout", mode, label)
+            if out is None:
+                continue
+            if out != want:
+                pos = next((i for i in range(min(len(out), len(want))) if out[i] != want[i]), min(len(out), len(want)))
+                ctx.violation(None, "stdout bytes of the %s depend on the process's stdout encoding (not the UTF-8 form of the rendered text)"
+                              % ("line writer" if mode.startswith("line") else "text writer"),
+                              detail={"environment": extra, "mode": mode, "at": pos, "written": out[max(0, pos - 40):pos + 80], "expected": want[max(0, pos - 40):pos + 80]})
+            else:
+                ctx.event("envstdout_outputs_equal")
+    finally:
+        try:
+            os.unlink(src)
+        except OSError:
+            pass
+    ctx.nontrivial("envstdout", mode, case["s"])
+
+
+# ---- CSV from a pipe --------------------------------------------------------------------------------------
+def do_csvpipe(ctx, case, mk):
+    """`... | rdump csvfile://- -w out`: comma-separated safe-cell CSV arriving on a non-seekable stdin is read completely -
+    header and first rows included, also when the text is longer than any look-ahead."""
+    from flow.record import RecordReader
+
+    rng = mk.rng
+    ncol = rng.randint(2, 5)
+    nrow = rng.choice([1, 3, 8, 40, 120])
+    names = rng.sample(["a", "b", "c", "col1", "Name", "x_y", "value", "ts", "id9", "Zq"], ncol)
+    rows = [[safe_cell(rng) for _ in range(ncol)] for _ in range(nrow)]
+    buf = io.StringIO(newline="")
+    wr = csv.writer(buf, lineterminator=rng.choice(["\r\n", "\n"]))
+    wr.writerow(names)
+    wr.writerows(rows)
+    text = buf.getvalue()
+    dst = new_path(ctx, "records")
+    ctx.ev()
+    out = run_rdump(ctx, ["csvfile://-", "-w", dst], stdin=text.encode("utf-8"))
+    ctx.cell("csvpipe", "long" if len(text) > 1024 else "short")
+    if out is None:
+        return
+    try:
+        rd = RecordReader(dst)
+        try:
+            got = list(rd)
+        finally:
+            rd.close()
+        os.unlink(dst)
+    except Exception as e:  # noqa: BLE001
+        ctx.violation(None, "CSV from a pipe: the records rdump wrote cannot be read (%s)" % type(e).__name__, detail={"exception": repr(e)[:300], "csv": text[:300]})
+        return
+    detail = {"csv": text[:400], "rows": nrow, "characters": len(text)}
+    if len(got) != len(rows):
+        ctx.violation(None, "CSV from a pipe: %d records for %d rows (header / first rows lost?)" % (len(got), len(rows)), detail=dict(detail, first=describe(got, 2)))
+        return
+    for i, (rec, row) in enumerate(zip(got, rows)):
+        for n, cell in zip(names, row):
+            v = getattr(rec, n, None)
+            if not ((v is None and cell == "") or (v is not None and str(v) == cell)):
+                ctx.violation(None, "CSV from a pipe: field text differs from the cell", detail=dict(detail, row=i, column=n, cell=cell, value=repr(v)[:100]))
+                return
+            ctx.event("csvpipe_cells_checked")
+    ctx.event("csvpipe_inputs_checked")
+    ctx.nontrivial("csvpipe", names, nrow, case["s"])
+
+
 DISPATCH = {"csv": do_csv, "line": do_line, "text": do_text, "csvread": do_csvread, "gmutwrite": do_gmutwrite, "tzdisplay": do_tzdisplay,
-            "rdumpcsv": do_rdumpcsv, "defang": do_defang, "rdumpfmt": do_rdumpfmt}
+            "rdumpcsv": do_rdumpcsv, "defang": do_defang, "rdumpfmt": do_rdumpfmt, "rdumpmode": do_rdumpmode,
+            "envstdout": do_envstdout, "csvpipe": do_csvpipe}
 
 
 def execute(ctx, case):
@@ -1378,6 +1675,12 @@ def finish(ctx):
             ctx.require(ctx.events.get(ev, 0) > 0, "display-configuration monitor %s never ran" % ev)
     if ctx.events.get("kind:rdumpcsv", 0):
         ctx.require(ctx.events.get("rdumpcsv_rows_checked", 0) > 0, "rdump csv-mode monitor never compared a row")
+    if ctx.events.get("kind:rdumpmode", 0):
+        ctx.require(ctx.events.get("rdumpmode_records_checked", 0) > 0, "rdump output-mode monitor never compared a record")
+    if ctx.events.get("kind:envstdout", 0):
+        ctx.require(ctx.events.get("envstdout_outputs_equal", 0) > 0, "stdout-encoding monitor never compared an output")
+    if ctx.events.get("kind:csvpipe", 0):
+        ctx.require(ctx.events.get("csvpipe_cells_checked", 0) > 0, "CSV-from-pipe monitor never compared a cell")
     if ctx.events.get("kind:rdumpfmt", 0):
         ctx.require(ctx.events.get("rdumpfmt_records_checked", 0) > 0, "rdump --format monitor never compared a record")
     for ev in ("defang_direct_checked", "defang_template_records_checked", "gmutwrite_rerendered_ok", "csv_rows_checked", "csv_type_changes", "line_field_lines_matched", "text_records_matched", "text_repr_fields_checked",
